@@ -821,6 +821,10 @@ theorem QuietO.armReplay (o : Outbound) : QuietO o o.armReplay := by
   obtain ⟨h1, h2, _, h4⟩ := armReplay_queues o
   exact QuietO.same (by simp [Outbound.relKeys, h2, Function.comp_def]) (by simp [Outbound.tags, h1, Function.comp_def]) h4
 
+theorem QuietO.rearm (o : Outbound) : QuietO o o.rearm := by
+  obtain ⟨h1, h2⟩ := QuietO.armReplay o.dropPingreq
+  exact ⟨h1, h2⟩
+
 theorem encodeAt_frame {ε : Type} (o : Outbound) (enc : Nat → (Nat → Nat → Bytes) → Except ε (Nat × Bytes)) :
     (o.encodeAt enc).1.keys = o.keys ∧ (o.encodeAt enc).1.release = o.release ∧
     (o.encodeAt enc).1.control = o.control ∧ (o.encodeAt enc).1.nextSer = o.nextSer := by
@@ -922,7 +926,7 @@ theorem activate_true_quiet (s : Session) (block : Bytes) (now : Nat) :
   unfold Session.activate
   simp only [Bool.not_true, Bool.false_eq_true, if_false]
   split
-  · exact Quiet.of_out (QuietO.armReplay _)
+  · exact Quiet.of_out (QuietO.rearm _)
   · exact ⟨rfl, rfl, QuietO.refl _⟩
 
 /-- **Classification of the primitive steps**: every step is quiet, or handles an inbound packet, or is
@@ -955,7 +959,7 @@ theorem SessStep.classify {s s' : Session} (st : SessStep s s') :
     · exact Quiet.of_out (QuietO.retainedState _ _ _)
   case takePkt => left; rw [(Session.takePkt_data s).1]; exact Quiet.refl _
   case handle p => exact Or.inr (Or.inl ⟨p, rfl⟩)
-  case handleDisconnect => left; exact Quiet.of_out (QuietO.armReplay _)
+  case handleDisconnect => left; exact Quiet.of_out (QuietO.rearm _)
   case activate sp block now =>
     cases sp
     · exact Or.inr (Or.inr ⟨block, now, rfl⟩)
@@ -995,7 +999,7 @@ theorem SessStep.classify {s s' : Session} (st : SessStep s s') :
     · simp at hw
     · simp only [Option.some.injEq, Prod.mk.injEq] at hw; rw [← hw.1]; exact Quiet.refl _
   case commit bytes => left; exact Quiet.refl _
-  case beginConnect => left; exact Quiet.of_out (QuietO.armReplay _)
+  case beginConnect => left; exact Quiet.of_out (QuietO.rearm _)
   case setPid n h1 h2 => left; exact ⟨rfl, rfl, QuietO.refl _⟩
 
 /-! ### `swap_remove` on the list of inbound QoS 2 identifiers -/
